@@ -46,6 +46,9 @@ Fixpoint has_dup_nat (ps : list nat) : bool :=
 Definition labels_at (labels : list L) (ps : list nat) : list L :=
   flat_map (fun p => match nth_error labels p with Some l => [l] | None => [] end) ps.
 
+Definition count_true (bs : list bool) : Z := Z.of_nat (length (filter (fun b => b) bs)).
+Definition all_true (bs : list bool) : bool := forallb (fun b => b) bs.
+
 Definition is_some {A} (o : option A) : bool := match o with Some _ => true | None => false end.
 
 Fixpoint insert_by {A} (le : A -> A -> bool) (x : A) (l : list A) : list A :=
@@ -201,6 +204,13 @@ Definition s_trim (mp : option Z) (c : list L) : list L :=
 (* one use of label l: it becomes the most recent; the least recent goes if the bound is exceeded *)
 Definition s_touch (mp : option Z) (l : L) (c : list L) : list L := s_trim mp (la_touch l c).
 
+(* the distinct labels of a sequence of uses, ordered by their LAST use (least recently used first) *)
+Fixpoint dedup_last (w : list L) : list L :=
+  match w with
+  | [] => []
+  | x :: r => if mem x r then dedup_last r else x :: dedup_last r
+  end.
+
 (* uses in key order; a label not held needs a read, which a stale file refuses: (ok?, cache) *)
 Fixpoint s_access_all (coh : bool) (mp : option Z) (c : list L) (ls : list L) : bool * list L :=
   match ls with
@@ -301,6 +311,24 @@ Fixpoint s_exec (st : store) (b : sbus) (ops : list op) : store * sbus :=
   match ops with
   | [] => (st, b)
   | o :: r => let '(_, st', b') := s_step st b o in s_exec st' b' r
+  end.
+
+(* ---------- the part of the history space on which the implementation meets S (see Refuted/C17.v for the rest) ----------
+   get / iter_element(_items) only when they cannot meet a placeholder and no LRU order exists to disturb;
+   sort_values only without max_persist; the backing file is never put back with the recorded mtime. *)
+Definition s_dom_op (st : store) (b : sbus) (o : op) : bool :=
+  match o with
+  | OGet l => negb (mem l (sb_labels b)) || (mem l (sb_cache b) && negb (is_some (sb_mp b)))
+  | OIterElem | OIterItems => negb (is_some (sb_mp b)) && forallb (fun l => mem l (sb_cache b)) (sb_labels b)
+  | OSortValues _ _ => negb (is_some (sb_mp b))
+  | OFile f => negb (option_eqb Z.eqb f (st_recorded st))
+  | _ => true
+  end.
+
+Fixpoint s_dom (st : store) (b : sbus) (ops : list op) : bool :=
+  match ops with
+  | [] => true
+  | o :: r => s_dom_op st b o && (let '(_, st', b') := s_step st b o in s_dom st' b' r)
   end.
 
 Definition trace_eqb (a b : list (obs * list bool)) : bool :=
